@@ -149,6 +149,15 @@ PROPS = {
         "trusted_base": ["the signature scheme is a parameter (as in C02)", "JWS decoding is C08/C11's model; tokens are well-formed compact JWS", "method resolution is the C04 model (query = DID part + fragment of the kid string; the string-level extraction of DIDUrlQuery is exercised through the kid forms, not modelled)", "claims conversion and dates are the C07 / C13 models"],
         "assumptions": ["a method of another DID embedded in the holder document is a verification method of that document (the statement's wording); the binding to the holder is the iss = document id condition"],
     },
+    "C16": {
+        "translate": True,
+        "gens": ["C04", "C06", "C13", "C07", "C02", "C16"],
+        "diff_is_violation": True,
+        "trivial": ["bad-request"],
+        "rule": "streams (toy signature scheme; SD-JWTs built with the sd-jwt-payload encoder from the C02 claims sets, three concealed subject properties with fixed salts): (1) corpus; (2) cred: 13 disclosure variants (every subset of the three disclosures presented; all + a forged disclosure; a duplicate; reversed order; one with an altered value; all + a string that is no disclosure) x subject id present / absent x 7 signature-stage situations (good, other key, method without JWK, kid absent, header nonce, issuer of another DID, issuer not a DID) x 4 unit situations (good, expired, issued too late + missing base type, revoked) x fail-fast / all-errors; inconsistent claims, a payload that is no claims set and three configured scopes under each variant; (3) kb: key-binding JWT attached / absent x hash algorithm supported / not x typ (library constant, literal kb+jwt, another value, absent) x 8 kid / key situations (good, other key, embedded method, method without JWK, key of another DID listed in the holder document, kid absent, kid not a DID URL, unknown fragment) x sd_hash (over the presented token, over the token with other disclosures, garbage) x nonce / audience right / wrong; iat at 49..151 around the window [50,150], at and beyond years 0000 / 9999, with each of earliest / latest / nonce / audience configured or not (incl. the wall-clock branch); scopes x kid / method-id override; undeserialisable KB claims; 400 (5000) random mixtures. Implementation-side oracles: an accepted credential has every presented disclosure's SHA-256 digest in the signed claims or in another presented disclosure; an accepted KB-JWT is typed exactly \"kb+jwt\"; a panic is a failure. Every reply must equal the model's. Non-trivial = not bad-request; distinct request lines.",
+        "trusted_base": ["the disclosure decoder (sd-jwt-payload 0.2.1, third party) is a parameter: its verdict on (signed claims, disclosures) and the emptiness of the reconstructed subject are passed as facts and checked against the digest-presence oracle", "SHA-256 / base64url of digests (third party)", "signature scheme, JWS decoding, document resolution, claims conversion, status, dates: as in C02"],
+        "assumptions": ["the wall clock is passed in the request; iat values within seconds of it are not generated"],
+    },
     "C18": {
         "translate": True,
         "diff_is_violation": False,
